@@ -91,8 +91,11 @@ class Ctx(object):
             else: mine['n'] += e['n']
 
     # ---- parallel map ---------------------------------------------------------------------
-    def pmap(self, func, items, chunksize=1, workers=None):
-        """Fork-based pool; func must be a module-level function. Falls back to serial."""
+    def pmap(self, func, items, chunksize=1, workers=None, hang_timeout=None, on_hang=None):
+        """Fork-based pool; func must be a module-level function. Falls back to serial.
+        hang_timeout (seconds without ANY task finishing): code under test that blocks for good (a leaked
+        lock, a deadlock outside the scheduler) must end as a finding, not as a check that never returns.
+        on_hang(unfinished_items) is called, the pool is killed and the results so far are returned."""
         items = list(items)
         n = workers or self.nworkers
         if n <= 1 or len(items) <= 1:
@@ -101,10 +104,29 @@ class Ctx(object):
         from vf.seams import dbapi
         dbapi.scratch_dir()          # created in the parent so that it is also removed by the parent
         pool = mp.get_context('fork').Pool(min(n, len(items)))
+        if hang_timeout is None:
+            try:
+                return pool.map(func, items, chunksize)
+            finally:
+                pool.close(); pool.join()
+        pending = [(it, pool.apply_async(func, (it,))) for it in items]
+        results, last_progress, done = {}, time.time(), set()
         try:
-            return pool.map(func, items, chunksize)
+            while len(done) < len(pending):
+                progressed = False
+                for i, (it, ar) in enumerate(pending):
+                    if i in done or not ar.ready(): continue
+                    results[i] = ar.get(); done.add(i); progressed = True
+                if progressed: last_progress = time.time()
+                elif time.time() - last_progress > hang_timeout:
+                    unfinished = [it for i, (it, ar) in enumerate(pending) if i not in done]
+                    if on_hang is not None: on_hang(unfinished)
+                    self.cap('%d task(s) did not finish within %ds of the last progress and were killed' % (len(unfinished), hang_timeout))
+                    break
+                else: time.sleep(0.2)
         finally:
-            pool.close(); pool.join()
+            pool.terminate(); pool.join()
+        return [results[i] for i in sorted(results)]
 
 class Sub(object):
     """Light-weight stand-in for Ctx inside worker processes: collects counters / found /
